@@ -120,6 +120,8 @@ def run_case(sub, ex, conn_n, upg_n, part=None):
             m = sub.prove(f'{tag}/no-panic', pc, z3.BoolVal(True), extra=assume)
             report(sub, m, conn, upg, ver, p, asc, f'handshake panicked: {r}'); continue
         def then(pc2, spec, r=r):
+            # once this worker has replayed violations the verdict is settled: the remaining obligations of the case are not discharged one by one
+            if sub.violations and REPORTED['n'] >= 4: return
             want_ok = spec
             if r[0] == 'err':
                 good = (not want_ok) and isinstance(r[1], int) and 400 <= r[1] <= 499
